@@ -212,8 +212,114 @@ def replay_h_slice_dtypes(k0, k1, s0, s1, item, via_state, pandas_nulls, given):
         shutil.rmtree(d, ignore_errors=True)
 
 
+# ------------------------------------------------------------------ timestamp columns: unit and zone ---
+UNITS = ["s", "ms", "us", "ns"]
+ZONES = [None, "UTC", "Europe/Paris"]
+
+
+def _time_handle(unit, zone):
+    """a handle over the metadata the real writer produces for a frame with one timestamp column"""
+    import pandas as pd
+    import fastparquet.writer as writer
+    t = pd.Series(np.array([0, 1000000000], dtype="int64").astype("M8[s]").astype("M8[%s]" % unit))
+    if zone:
+        t = t.dt.tz_localize("UTC").dt.tz_convert(zone)
+    df = pd.DataFrame({"t": t, "a": [1, 2]})
+    fmd = writer.make_metadata(df)
+    cols = [parquet_thrift.ColumnChunk(meta_data=parquet_thrift.ColumnMetaData(
+        type=T.INT64, path_in_schema=[c], num_values=2, statistics=parquet_thrift.Statistics(null_count=0)))
+        for c in ("t", "a")]
+    fmd.row_groups = [parquet_thrift.RowGroup(columns=cols, num_rows=2, total_byte_size=1)]
+    fmd.num_rows = 2
+    pf = object.__new__(api.ParquetFile)
+    pf.__setstate__({"fn": "x", "open": None, "fmd": fmd, "pandas_nulls": True, "_base_dtype": None, "tz": None})
+    return pf, str(df["t"].dtype)
+
+
+def h_time_dtype(iu: int, iz: int, via_state: bool) -> bool:
+    """
+    pre: 0 <= iu <= 3 and 0 <= iz <= 2
+    post: __return__
+    """
+    # a timestamp column of any unit, naive or zone-aware, as this library's writer describes it: the handle predicts
+    # the frame's own dtype (unit and zone), keeps predicting it after a trip through __getstate__ / __setstate__, and
+    # asks the allocator for that zone
+    iu, iz = _pick_i(iu, 0, 3), _pick_i(iz, 0, 2)
+    via_state = bool(via_state)
+    # every input is concrete from here on: the real functions (and pandas underneath) run untraced
+    try:
+        from crosshair.tracers import NoTracing
+    except ImportError:
+        return _time_dtype(iu, iz, via_state)
+    with NoTracing():
+        return _time_dtype(iu, iz, via_state)
+
+
+def _time_dtype(iu, iz, via_state):
+    pf, want = _time_handle(UNITS[iu], ZONES[iz])
+    if via_state:
+        state = pf.__getstate__()
+        pf = object.__new__(api.ParquetFile)
+        pf.__setstate__(state)
+    if str(pf.dtypes["t"]) != want:
+        return False
+    saved = api.dataframe
+    api.dataframe = _DFMod
+    try:
+        pf.pre_allocate(2, ["t", "a"], None, None)
+    finally:
+        api.dataframe = saved
+    r = REC[0]
+    zone = ZONES[iz]
+    return [str(t) for t in r["types"]][0] == want and r["timezones"] == ({"t": zone} if zone else {})
+
+
+def _pick_i(v, lo, hi):
+    for k in range(lo, hi + 1):
+        if v == k:
+            return k
+    raise ValueError(v)
+
+
+def replay_h_time_dtype(iu, iz, via_state):
+    import pickle, shutil, tempfile
+    import pandas as pd
+    import fastparquet
+    unit, zone = UNITS[iu], ZONES[iz]
+    t = pd.Series(np.array([0, 1000000000], dtype="int64").astype("M8[s]").astype("M8[%s]" % unit))
+    if zone:
+        t = t.dt.tz_localize("UTC").dt.tz_convert(zone)
+    df = pd.DataFrame({"t": t, "a": [1, 2]})
+    d = tempfile.mkdtemp(prefix="c17-")
+    try:
+        fn = os.path.join(d, "t.parq")
+        fastparquet.write(fn, df)
+        pf = fastparquet.ParquetFile(fn)
+        if via_state:
+            pf = pickle.loads(pickle.dumps(pf))
+        pred = str(pf.dtypes["t"])
+        out = pf.to_pandas()["t"]
+        if pred != str(df["t"].dtype) or str(out.dtype) != pred or list(out) != list(df["t"]):
+            return True, "timestamp column %s%s: handle predicts %s, read gives %s (%r)" % (
+                df["t"].dtype, " (pickled handle)" if via_state else "", pred, out.dtype, list(out)[:1])
+        return False, "unit and zone kept"
+    finally:
+        shutil.rmtree(d, ignore_errors=True)
+
+
 # ------------------------------------------------------------------ allocation request == prediction ---
 REC = [None]
+
+
+class _FrameStub:
+    class _Ax:
+        names = None
+
+    def __init__(self):
+        self.columns, self.index = _FrameStub._Ax(), _FrameStub._Ax()
+
+    def __contains__(self, k):
+        return False
 
 
 class _DFMod:
@@ -221,8 +327,9 @@ class _DFMod:
     def empty(types, size, cats=None, cols=None, index_types=None, index_names=None, timezones=None,
               columns_dtype=None):
         REC[0] = dict(types=list(types), size=size, cats=dict(cats or {}), cols=list(cols),
-                      index_types=list(index_types or []), index_names=list(index_names or []))
-        return object(), {}
+                      index_types=list(index_types or []), index_names=list(index_names or []),
+                      timezones=dict(timezones or {}))
+        return _FrameStub(), {}
 
     tz_to_dt_tz = staticmethod(lambda z: z)
 
